@@ -115,6 +115,14 @@ def is_registration_idiom(site):
     v = site.value
     # `if o.tag is None: counter += 1; o.tag = counter`: handing out the next number of a running
     # counter to an object that has none (numbering, decided by C17), not a cached computation
+    if isinstance(v, ast.Call) and isinstance(v.func, ast.Name) and v.func.id == 'next' and len(v.args) == 1 and \
+       isinstance(v.args[0], ast.Name):
+        cn = v.args[0].id
+        defs = [s_ for s_ in ast.walk(site.func.node) if isinstance(s_, ast.Assign) and
+                any(isinstance(t_, ast.Name) and t_.id == cn for t_ in s_.targets)]
+        if defs and all(isinstance(s_.value, ast.Call) and (dotted(s_.value.func) or '') in ('count', 'itertools.count')
+                        for s_ in defs):
+            return True         # `if o.tag is None: o.tag = next(counter)`: the same numbering with itertools.count
     if isinstance(v, ast.Name) and any(isinstance(st, ast.AugAssign) and isinstance(st.target, ast.Name) and
                                         st.target.id == v.id and isinstance(st.op, ast.Add) and
                                         isinstance(st.value, ast.Constant) and st.value.value == 1
